@@ -1,3 +1,5 @@
     // ghost items spliced into `impl Chain<M> for MclmcChain<M, R, A, T>` (rule R1: contracts)
     open spec fn draw_pre(&self) -> bool { mc_draw_pre(*self) }
     open spec fn draw_post(&self, post: &Self, r: Result<(Box<[F]>, Progress)>) -> bool { mc_draw_post(*self, *post, r) }
+    open spec fn expanded_draw_pre(&self) -> bool { mc_exp_pre(*self) }
+    open spec fn expanded_draw_post(&self, post: &Self, r: Result<(Box<[F]>, M::ExpandedVector, Self::Stats, Progress)>) -> bool { mc_exp_post(*self, *post, r) }
